@@ -368,7 +368,7 @@ static inline uint32_t alg_class(const SPos *P, uint32_t m)
 { if (spec_move_ccode(m) != 0) return 0; uint32_t k = sp_kind(P->board[spec_move_from(m)]); return k == 6 ? 1 : (k == 1 ? 2 : (k == 2 ? 3 : (k == 3 ? 4 : (k == 4 ? 5 : (k == 5 ? 6 : 7))))); }
 '''
 LCLASS = ['castling', 'king', 'pawn', 'knight', 'bishop', 'rook', 'queen', 'nopiece']
-QUICK_THEOREM = ('castling', 'king', 'knight', 'nopiece')    # 2-8 min each; pawn / bishop / rook / queen take 8-15 min: thorough tier
+QUICK_THEOREM = ('castling', 'king', 'nopiece')    # 2-6 min each; knight / pawn / bishop / rook / queen take 8-15 min: thorough tier
 
 
 def lemma_jobs(tier, seed):
